@@ -3,7 +3,8 @@
 (* C11 -- property layer shared by ChainImport (design checking,           *)
 (* generation) and ChainImport_Mon (the verdict).  Pure operators over     *)
 (*   T = the block tree  [par : name -> parent name, num : name -> height, *)
-(*                        inv : set of invalid block names]                *)
+(*                        inv : set of invalid block names,                *)
+(*                        txs : name -> set of its transactions]           *)
 (*   o = an observation of a chain at rest                                 *)
 (*       [head : name, hn : height of head,                                *)
 (*        canon : sequence, canon[n+1] = name of the canonical block at    *)
@@ -33,14 +34,19 @@ HeadStateAvailable(T, o) == o.st
 \* "transaction lookups point into canonical blocks"
 LookupOk(T, o, t) == o.txl[t] = "-" \/ (IsBlock(T, o.txl[t]) /\ T.num[o.txl[t]] <= o.hn /\ At(o, T.num[o.txl[t]]) = o.txl[t])
 LookupsCanonical(T, o) == \A t \in DOMAIN o.txl : LookupOk(T, o, t)
+\* "transaction lookups point into canonical blocks", the other direction: every transaction of a canonical block (genesis to
+\* head) HAS a lookup entry, and it points to that block (otherwise the transaction cannot be found although it is canonical)
+CanonTxOk(T, o, n, t) == t \in DOMAIN o.txl /\ o.txl[t] = At(o, n)
+LookupsComplete(T, o) == \A n \in 0..o.hn : IsBlock(T, At(o, n)) => \A t \in T.txs[At(o, n)] : CanonTxOk(T, o, n, t)
 \* "an invalid block never becomes canonical"
 InvalidNeverCanonical(T, o) == o.head \notin T.inv /\ \A n \in 0..o.hn : At(o, n) \notin T.inv
 
-ObsClauses == {"CanonLinked", "HeadStateAvailable", "LookupsCanonical", "InvalidNeverCanonical"}
+ObsClauses == {"CanonLinked", "HeadStateAvailable", "LookupsCanonical", "LookupsComplete", "InvalidNeverCanonical"}
 Holds(name, T, o) ==
    CASE name = "CanonLinked" -> CanonLinked(T, o)
      [] name = "HeadStateAvailable" -> HeadStateAvailable(T, o)
      [] name = "LookupsCanonical" -> LookupsCanonical(T, o)
+     [] name = "LookupsComplete" -> LookupsComplete(T, o)
      [] name = "InvalidNeverCanonical" -> InvalidNeverCanonical(T, o)
 Failing(T, o) == { name \in ObsClauses : ~Holds(name, T, o) }
 
@@ -55,6 +61,11 @@ Class(name, T, o) ==
           \cup (IF \E t \in DOMAIN o.txl : IsBlock(T, o.txl[t]) /\ T.num[o.txl[t]] > o.hn THEN {"above_head"} ELSE {})
           \cup (IF \E t \in DOMAIN o.txl : IsBlock(T, o.txl[t]) /\ T.num[o.txl[t]] <= o.hn /\ At(o, T.num[o.txl[t]]) # o.txl[t]
                 THEN {"not_canonical"} ELSE {})
+     [] name = "LookupsComplete" ->
+          (IF \E n \in 0..o.hn : IsBlock(T, At(o, n)) /\ \E t \in T.txs[At(o, n)] : t \notin DOMAIN o.txl \/ o.txl[t] = "-"
+           THEN {"missing"} ELSE {})
+          \cup (IF \E n \in 0..o.hn : IsBlock(T, At(o, n)) /\ \E t \in T.txs[At(o, n)] : t \in DOMAIN o.txl /\ o.txl[t] \notin {"-", At(o, n)}
+                THEN {"points_elsewhere"} ELSE {})
      [] OTHER -> {}
 
 \* known findings: sequence of [clause, disc]; the rule of vlib.known_match
